@@ -37,7 +37,15 @@ def probe_doc(mp, rng):
         if m["sid"] is not None:
             variants.append(("D1", sid + "x", name, False))
         if sn is not None:
-            variants.append(("D2", sid, (name or "") + "zz" if sn[0] == "eq" else "zz" + (name or ""), False))
+            if sn[0] == "eq":
+                variants.append(("D2", sid, (name or "") + "zz", False))
+            else:
+                # a name that does NOT begin with the prefix, case-insensitively (a prefix such as "z" or "" would
+                # match a decoy built by blindly prepending letters: no decoy then)
+                cands = [pre + (name or "") for pre in ("zz", "q", "#", "0", "\u00e9")]
+                cands = [c for c in cands if not c.upper().startswith(sn[1].upper())]
+                if cands:
+                    variants.append(("D2", sid, cands[0], False))
             variants.append(("D3", sid, None, False))
         kind = {"paragraph": "paragraph", "run": "character", "table": "table"}[k]
         for i, (mark, vsid, vname, should) in enumerate(variants):
